@@ -28,7 +28,9 @@ extern "C" {
 
 typedef std::vector<uint8_t> Bytes;
 
+#ifndef VERIF_NO_SHIM
 extern "C" void verif_appBitsCpy(uint8_t* Dest, int32_t DestBit, const uint8_t* Src, int32_t SrcBit, int32_t BitCount);
+#endif
 static uint64_t fnv64(const uint8_t* p, size_t n)
 {
 	uint64_t h = 1469598103934665603ULL;
@@ -1338,6 +1340,10 @@ int main(int argc, char** argv)
 				}
 				if (k == "cp")
 				{
+#ifdef VERIF_NO_SHIM
+					line += " cp:unavailable";
+					continue;
+#else
 					size_t dn = (a[0] + a[2] + 7) / 8, sn = (a[1] + a[2] + 7) / 8;
 					uint8_t* dest = pbytes(a[3] + 1, dn);
 					uint8_t* src = pbytes(a[3], sn);
@@ -1352,6 +1358,7 @@ int main(int argc, char** argv)
 					free(src);
 					free(dexact);
 					free(sexact);
+#endif
 				}
 				else if (!reading)
 				{
